@@ -94,7 +94,8 @@ def _build_response(q, o):
     runs that need the same reply; the resolver only reads it)."""
     import json as _json
 
-    key = (str(q.question[0].name), int(q.question[0].rdtype), _json.dumps(o, sort_keys=True))
+    key = (str(q.question[0].name), int(q.question[0].rdtype), int(q.question[0].rdclass),
+           _json.dumps(o, sort_keys=True))
     hit = _RESP_CACHE.get(key)
     if hit is None:
         if len(_RESP_CACHE) > 20000:
@@ -113,6 +114,9 @@ def _build_response_uncached(q, o):
     r = dns.message.make_response(q)
     qn = q.question[0].name
     rdtype = dns.rdatatype.to_text(q.question[0].rdtype)
+    # every record of the reply is in the class of the question (TXT/MX/CNAME/SOA are
+    # class-independent types, so the CH/HS scenarios use those)
+    ctext = dns.rdataclass.to_text(q.question[0].rdclass)
     meta = {"canon": str(qn), "minttl": None, "rr": None}
     if k == "S":
         r.set_rcode(dns.rcode.SERVFAIL)
@@ -139,7 +143,7 @@ def _build_response_uncached(q, o):
             target = dns.name.from_text(_chain_name(0)) if len(chain) > 1 else qn
         else:
             target = dns.name.from_text(_chain_name(i))
-        rrsets.append(dns.rrset.from_text(owner, t, "IN", "CNAME", str(target)))
+        rrsets.append(dns.rrset.from_text(owner, t, ctext, "CNAME", str(target)))
         ttls.append(t)
         owner = target
     meta["loop"] = loop
@@ -147,9 +151,10 @@ def _build_response_uncached(q, o):
     meta["chainlen"] = len(chain)
     if k in ("A", "Mx"):
         ttl = o.get("ttl", 300)
-        rrsets.append(dns.rrset.from_text(owner, ttl, "IN", rdtype, RDATA[rdtype]))
+        rdata = o.get("rdata", RDATA[rdtype])
+        rrsets.append(dns.rrset.from_text(owner, ttl, ctext, rdtype, rdata))
         ttls.append(ttl)
-        meta["rr"] = [str(owner), ttl, rdtype, [RDATA[rdtype]]]
+        meta["rr"] = [str(owner), ttl, rdtype, [rdata]]
     for rs in rrsets:
         r.answer.append(rs)
     if k in ("N", "X", "Mx"):
@@ -162,7 +167,7 @@ def _build_response_uncached(q, o):
                     sown = sown.parent()
             r.authority.append(
                 dns.rrset.from_text(
-                    sown, sttl, "IN", "SOA", f"ns.test. admin.test. 1 3600 600 86400 {smin}"
+                    sown, sttl, ctext, "SOA", f"ns.test. admin.test. 1 3600 600 86400 {smin}"
                 )
             )
             ttls.extend([sttl, smin])
@@ -184,6 +189,11 @@ class _World:
         self.events = []
         self.qi = 0
         self.notes = []
+        # class scenarios: the scripted servers are authoritative for a small table
+        # (class, owner name) -> outcome instead of replaying a sequence
+        self.zone = None
+        if cfg.get("zone") is not None:
+            self.zone = {(int(c), n): o for c, n, o in cfg["zone"]}
 
     # -- ``time`` shim
     def time(self):
@@ -213,7 +223,10 @@ class _World:
     def exchange(self, transport, q, where, port, timeout, kw):
         idx = self.qi
         self.qi += 1
-        o = self.script[idx] if idx < len(self.script) else TIMEOUT_O
+        if self.zone is not None and len(q.question) == 1:
+            o = self.zone.get((int(q.question[0].rdclass), str(q.question[0].name)), TIMEOUT_O)
+        else:
+            o = self.script[idx] if idx < len(self.script) else TIMEOUT_O
         k = o["k"]
         d = o.get("d", 0.25)
         ev = {
@@ -393,6 +406,7 @@ def _describe_answer(a):
         a.port,
         dns.rdatatype.to_text(a.rdtype),
         int(a.rdclass),
+        int(a.rrset.rdclass) if a.rrset is not None else None,
     ]
 
 
@@ -430,6 +444,10 @@ def _make_resolver(cfg, is_async):
     return res
 
 
+def _uses_classes(cfg):
+    return any("rdclass" in rs for rs in cfg["resolutions"])
+
+
 def _run_real(cfg, script, is_async):
     """Run all resolutions of the case; returns list of dict(events, result, start, end, cache)."""
     world = _World(cfg, script)
@@ -450,6 +468,12 @@ def _run_real(cfg, script, is_async):
             )
             if cfg.get("lifetime_via", "attr") == "arg":
                 kwargs["lifetime"] = cfg["lifetime"]
+            if "rdclass" in rs:
+                # class scenarios: the class is given as an enum value or as text
+                kwargs["rdclass"] = (
+                    dns.rdataclass.to_text(rs["rdclass"]) if rs.get("as_text")
+                    else dns.rdataclass.RdataClass(rs["rdclass"])
+                )
             qname = rs["qname"]
             try:
                 if is_async:
@@ -474,8 +498,19 @@ def _run_real(cfg, script, is_async):
                 result = ["LifetimeTimeout"]
             except Exception as e:  # anything else is an undocumented outcome
                 result = ["exc", type(e).__name__]
+            # the raw key set of the cache (both cache classes keep a dict ``data`` keyed by the
+            # (name, rdtype, rdclass) tuple), taken before the probes below touch anything
+            rawkeys = None
+            if res.cache is not None and isinstance(getattr(res.cache, "data", None), dict):
+                try:
+                    rawkeys = sorted(
+                        [str(k[0]), dns.rdatatype.to_text(k[1]), int(k[2])] for k in list(res.cache.data.keys())
+                    )
+                except Exception:
+                    rawkeys = None
             # probe the cache through its public interface
             probes = {}
+            pclasses = (1, 3, 4) if _uses_classes(cfg) else (1, 3)
             if res.cache is not None:
                 names = set(_oracle_qnames(cfg, qname))
                 for ev in world.events:
@@ -483,7 +518,7 @@ def _run_real(cfg, script, is_async):
                         names.add(ev["meta"]["canon"])
                 for n in sorted(names):
                     for ty in sorted({cfg["rdtype"], "ANY", "TXT", "A"}):
-                        for cl in (1, 3):
+                        for cl in pclasses:
                             v = res.cache.get((dns.name.from_text(n), dns.rdatatype.from_text(ty), cl))
                             if v is not None:
                                 kind = (
@@ -494,7 +529,7 @@ def _run_real(cfg, script, is_async):
                                 probes[f"{n}|{ty}|{cl}"] = [kind, round(float(v.expiration), 6)]
             out.append(
                 {"events": world.events, "result": result, "start": start, "end": world.now, "cache": probes,
-                 "probed": sorted(names) if res.cache is not None else []}
+                 "probed": sorted(names) if res.cache is not None else [], "keys": rawkeys}
             )
     return out
 
@@ -549,9 +584,10 @@ def _eff_class(ev, cfg):
     return e
 
 
-def _model_resolution(cfg, mcache, run, qname_text):
+def _model_resolution(cfg, mcache, run, qname_text, rdclass=1):
     """Walk the observed events of one resolution in lock-step with the documented rules.
-    Returns (problems, expected_result) where problems is a list of (clause, what, sig)."""
+    Returns (problems, expected_result) where problems is a list of (clause, what, sig).
+    The model cache is keyed by (name, type or ANY, class)."""
     events = run["events"]
     problems = []
     pos = 0
@@ -592,13 +628,13 @@ def _model_resolution(cfg, mcache, run, qname_text):
     nx = []
     for c in cands:
         if cfg.get("cache"):
-            e = mcache.get((c, cfg["rdtype"]))
+            e = mcache.get((c, cfg["rdtype"], rdclass))
             if e is not None and e["exp"] > now:
                 if e["kind"] == "nodata" and cfg["raise_on_no_answer"]:
                     return finish(["NoAnswer"])
                 if e["kind"] in ("ans", "nodata"):
                     return finish(e["desc"])
-            e = mcache.get((c, "ANY"))
+            e = mcache.get((c, "ANY", rdclass))
             if e is not None and e["exp"] > now and e["kind"] == "nx":
                 nx.append(c)
                 prev = "cached-nx"
@@ -652,7 +688,17 @@ def _model_resolution(cfg, mcache, run, qname_text):
             if ev["srv"] != s or ev["tr"] != tr:
                 diverge(exp, pos, f"[server {ev['srv']} instead of {s}]")
                 return problems, None
-            if ev["qname"] != c or ev["rdtype"] != cfg["rdtype"] or ev["rdclass"] != 1:
+            if ev["qname"] == c and ev["rdtype"] == cfg["rdtype"] and ev["rdclass"] != rdclass and _uses_classes(cfg):
+                problems.append(
+                    (
+                        "C16.candidates",
+                        f"query {pos} asks {ev['qname']} {ev['rdtype']} in class {ev['rdclass']}, the resolution was"
+                        f" requested for class {rdclass}",
+                        {"prop": "C16", "what": "query sent in a class other than the requested one", "via": "resolve"},
+                    )
+                )
+                return problems, None
+            if ev["qname"] != c or ev["rdtype"] != cfg["rdtype"] or ev["rdclass"] != rdclass:
                 problems.append(
                     (
                         "C16.candidates",
@@ -692,10 +738,10 @@ def _model_resolution(cfg, mcache, run, qname_text):
                     round(now + meta["minttl"], 6),
                     servers[s]["addr"],
                     servers[s]["port"] if servers[s]["kind"] != "doh" else 443,
-                    cfg["rdtype"], 1,
+                    cfg["rdtype"], rdclass,
                 ]
                 if cfg.get("cache"):
-                    mcache[(c, cfg["rdtype"])] = {"kind": "ans", "exp": now + meta["minttl"], "desc": desc}
+                    mcache[(c, cfg["rdtype"], rdclass)] = {"kind": "ans", "exp": now + meta["minttl"], "desc": desc}
                 return finish(desc)
             if k == "N":
                 desc = [
@@ -703,10 +749,10 @@ def _model_resolution(cfg, mcache, run, qname_text):
                     round(now + meta["minttl"], 6) if meta["minttl"] is not None else None,
                     servers[s]["addr"],
                     servers[s]["port"] if servers[s]["kind"] != "doh" else 443,
-                    cfg["rdtype"], 1,
+                    cfg["rdtype"], rdclass,
                 ]
                 if cfg.get("cache"):
-                    mcache[(c, cfg["rdtype"])] = {
+                    mcache[(c, cfg["rdtype"], rdclass)] = {
                         "kind": "nodata",
                         "exp": now + (meta["minttl"] if meta["minttl"] is not None else 2**31),
                         "desc": desc,
@@ -717,7 +763,7 @@ def _model_resolution(cfg, mcache, run, qname_text):
             if k == "X":
                 nx.append(c)
                 if cfg.get("cache"):
-                    mcache[(c, "ANY")] = {
+                    mcache[(c, "ANY", rdclass)] = {
                         "kind": "nx",
                         "exp": now + (meta["minttl"] if meta["minttl"] is not None else 2**31),
                         "desc": None,
@@ -835,9 +881,9 @@ def _check_cache(cfg, mcache, run, now):
     if not cfg.get("cache"):
         return problems
     exp = {}
-    for (n, ty), e in mcache.items():
+    for (n, ty, cl), e in mcache.items():
         if e["exp"] > now and n in run["probed"]:
-            exp[f"{n}|{ty}|1"] = e["kind"]
+            exp[f"{n}|{ty}|{cl}"] = e["kind"]
     got = {k: v[0] for k, v in run["cache"].items()}
     if exp != got:
         missing = sorted(set(exp) - set(got))
@@ -853,8 +899,8 @@ def _check_cache(cfg, mcache, run, now):
             )
         )
     else:
-        for (n, ty), e in mcache.items():
-            key = f"{n}|{ty}|1"
+        for (n, ty, cl), e in mcache.items():
+            key = f"{n}|{ty}|{cl}"
             if key in run["cache"] and e["exp"] < 2**30 and abs(run["cache"][key][1] - e["exp"]) > 1e-5:
                 problems.append(
                     (
@@ -864,6 +910,27 @@ def _check_cache(cfg, mcache, run, now):
                     )
                 )
                 break
+    if not problems and run.get("keys") is not None:
+        # the raw key set: every key the cache holds is a (queried name, type or ANY, queried class)
+        # the documented rules stored (expired entries may or may not have been cleaned), and every
+        # entry still valid is there
+        raw = {tuple(k) for k in run["keys"]}
+        ever = set(mcache.keys())
+        valid = {k for k, e in mcache.items() if e["exp"] > now}
+        extra = sorted(raw - ever)
+        missing = sorted(valid - raw)
+        if extra or missing:
+            k0 = (extra or missing)[0]
+            same_nt = [k for k in (ever if extra else raw) if k[0] == k0[0] and k[1] == k0[1] and k[2] != k0[2]]
+            problems.append(
+                (
+                    "C16.cache",
+                    f"cache keys after resolution: {sorted(raw)}; documented keys (name, type|ANY, class): valid"
+                    f" {sorted(valid)}, ever stored {sorted(ever)}",
+                    {"prop": "C16", "what": "raw cache key " + ("extra" if extra else "missing"),
+                     "class": "other class of a stored name/type" if same_nt else "other"},
+                )
+            )
     return problems
 
 
@@ -894,7 +961,7 @@ def _eval_case(cfg, script):
         mcache = {}
         for i, run in enumerate(runs):
             qn = cfg["resolutions"][i]["qname"]
-            ps, expected = _model_resolution(cfg, mcache, run, qn)
+            ps, expected = _model_resolution(cfg, mcache, run, qn, cfg["resolutions"][i].get("rdclass", 1))
             if not ps and expected is not None and not _results_equal(expected, run["result"]):
                 ps.append(
                     (
@@ -914,6 +981,13 @@ def _eval_case(cfg, script):
     info["consumed"] = max((e["oi"] + 1 for r in runs_s for e in r["events"] if e["t"] == "q"), default=0)
     info["nq"] = info["consumed"]
     info["kinds"] = sorted({_eff_class(e, cfg) for r in runs_s for e in r["events"] if e["t"] == "q"})
+    if cfg.get("zone") is not None:
+        # class scenarios: the dedicated class oracle looks at the same runs
+        for label, runs in (("sync", runs_s), ("async", runs_a)):
+            ps = _class_oracle(cfg, runs)
+            for p in ps:
+                p[2]["twin"] = label
+            problems.extend(ps)
     return problems, info
 
 
